@@ -74,6 +74,18 @@ CORPUS = {
         node(7, [('a', {'kind': 'oneof', 'cands': [6, 5]})]),
         node(8, [('a', inp(7)), ('b', {'kind': 'switch', 'decider': 3, 'cases': [['l0', 7]], 'name': 'sw1'})]),
         node(9, [('a', inp(2)), ('b', inp(8))])]),
+    # a one-of candidate that is an ordinary dependency too (fix 07dff2b): of another candidate …
+    'P15_candidate_read_by_another_candidate': spec([
+        node(0), node(1, [('a', inp(0))]), node(2, [('a', inp(1)), ('b', inp(0))]),
+        node(3, [('a', {'kind': 'oneof', 'cands': [2, 1]})])]),
+    # … of the consumer of the one-of itself
+    'P15b_candidate_also_plain_input_of_the_consumer': spec([
+        node(0), node(1, [('a', inp(0))]),
+        node(2, [('a', {'kind': 'oneof', 'cands': [1]}), ('b', inp(1))])]),
+    # … of a node of the main pipeline, while an earlier candidate wins
+    'P15c_losing_candidate_needed_by_main_pipeline': spec([
+        node(0), node(1), node(2, [('a', inp(0))]), node(3, [('a', {'kind': 'oneof', 'cands': [1, 2]})]),
+        node(4, [('a', inp(3)), ('b', inp(2))])]),
 }
 
 
